@@ -23,6 +23,7 @@
 #include <cstdlib>
 #include <cstring>
 #include <iostream>
+#include <map>
 #include <memory>
 #include <mutex>
 #include <random>
@@ -192,6 +193,7 @@ extern "C" void votca_verif_event(int kind, const void *obj, long arg) {
 
 struct Calc {
   std::vector<Index> fail;
+  std::map<Index, int> seen;
   long sleep_us = 0;
   Job::JobResult Eval(const Job &job, std::mt19937_64 &rng) {
     if (sleep_us > 0) usleep((useconds_t)(rng() % (unsigned long)sleep_us));
@@ -199,6 +201,12 @@ struct Calc {
       std::lock_guard<std::mutex> g(g_out);
       printf("\nexec %ld\n", (long)job.getId());
       fflush(stdout);
+      // free running: a process that is handed the same job a third time will most likely go on for ever
+      if (++seen[job.getId()] >= 3) {
+        printf("\nreexec %ld\n", (long)job.getId());
+        fflush(stdout);
+        _exit(4);
+      }
     }
     Job::JobResult res;
     bool f = false;
